@@ -1,5 +1,9 @@
 HOOK_COMMITS = ["bc07554"]
 
+SEQ_NOTE = ("Trusts: Lean kernel; the byte-exact correspondence run of the physical model (Sth/Model/Store.lean, GC.lean) against the "
+            "real store (every output, decoded pools and bucket table after every mutation, every file after every flush/GC/close); the "
+            "generators. File system modelled as name -> bytes; Go map iteration order and GC deadlines are trace inputs.")
+
 PENDING = "check not built yet in this round (model and theorems are planned in DESIGN.md section 5); not claimed until its check exists"
 NOT_APPLICABLE = {p: PENDING for p in ["C%02d" % i for i in range(1, 18)]}
 
@@ -29,3 +33,45 @@ META = {
              "probe; concurrency itself is covered by C16's lock facts, not here.",
     ),
 }
+
+META["C01"] = dict(
+    engine="lean+harness(seq)",
+    design_ref="DESIGN.md section 5, C01",
+    technique="Lean 4 proof (refinement of the physical store model to a finite map; record-list invariant) + byte-exact correspondence with store.Store",
+    text="The model is the store's Put/Get/Has/GetSize/Remove/Flush/iteration over pools, bucket table and byte-exact index/primary/freelist "
+         "files; the theorem states that every output equals the output of a finite map for all configurations, key sets and histories "
+         "(C01_store_refines_map, Sth/Props/C01.lean, in progress: the proved core today is the record-list invariant/lookup/codec of "
+         "Sth/Props/C08.lean on which it rests). The model is tied to the code by comparing every output, the decoded in-memory state and "
+         "the bytes of every file with the real store on generated traces, and every real output is checked against the map specification.",
+    note=SEQ_NOTE,
+)
+META["C02"] = dict(
+    engine="lean+harness(seq)",
+    design_ref="DESIGN.md section 5, C02",
+    technique="Lean 4 model of Close/Open (snapshot and rescan paths) with correspondence on bytes and bucket tables; two-path oracle on the real code",
+    text="Model of Store.Close/OpenStore including saveBucketState/loadBucketState, scanIndex with tail truncation and findLast*, executable "
+         "and compared byte-for-byte with the real store across close/reopen with a usable, a missing and a damaged snapshot; the real "
+         "code's live table, snapshot-path table and rescan-path table are compared directly. Proved core: record-list theorems; the "
+         "reopen theorem (C02_reopen_preserves) is stated in DESIGN.md and not yet proved.",
+    note=SEQ_NOTE,
+)
+META["C04"] = dict(
+    engine="lean+harness(seq)",
+    design_ref="DESIGN.md section 5, C04",
+    technique="Lean 4 byte-level model of both collectors with correspondence (poll budgets as trace inputs) + map-specification oracle with GC erased",
+    text="Model of Index.gc/truncateFreeFiles/reapIndexRecords and primaryGC.gc/processFreeList/deleteRecords/reapRecords incl. relocation "
+         "and time-limit resume, compared byte-for-byte with the real collectors at arbitrary positions of C01 histories; after every "
+         "cycle every key is read back against the map specification. Proved core: record-list theorems; the stutter theorems "
+         "(C04_indexGC_stutters, C04_primaryGC_stutters) are stated in DESIGN.md and not yet proved.",
+    note=SEQ_NOTE,
+)
+META["C15"] = dict(
+    engine="lean+harness(bs)",
+    design_ref="DESIGN.md section 5, C15",
+    technique="Lean 4 adapter model over the store model (hash function as a parameter) with correspondence + blockstore-contract oracle",
+    text="Model of every HashedBlockstore method (context check, store call on c.Hash(), error mapping, hash-on-read) over the store model; "
+         "compared with the real adapter on blocks of all sizes, CID versions, codecs and hash functions, aliases, cancelled contexts and "
+         "mismatching blocks, and checked against the blockstore contract. The adapter corollaries of C01 are not yet stated as theorems; "
+         "proved core: record-list theorems.",
+    note=SEQ_NOTE + " The hash function is a parameter (real Sum's verdict is trace input).",
+)
